@@ -31,9 +31,12 @@ class FnGrid:
         self.params = {a.arg for a in fn.args.args + fn.args.kwonlyargs}
         self.taint = set(self.params) - {'self', 'cls'}
         self.exact = set()      # names holding Decimal/Fraction values
+        self.texts = set()      # names holding text (a Decimal built from text is exact; one built from a float is not)
         for a in fn.args.args:
             if a.annotation is not None and ast.unparse(a.annotation) in EXACT_CTORS:
                 self.exact.add(a.arg)
+            if a.annotation is not None and ast.unparse(a.annotation) == 'str':
+                self.texts.add(a.arg)
         changed = True
         while changed:
             changed = False
@@ -59,7 +62,19 @@ class FnGrid:
         if isinstance(e, ast.Name):
             return e.id in self.exact
         if isinstance(e, ast.Call) and fname(e) in EXACT_CTORS:
-            return True
+            # Decimal(text) and Decimal(Decimal) are exact; Decimal(float) keeps the binary expansion of the float
+            if not e.args:
+                return True
+            a = e.args[0]
+            if isinstance(a, ast.Constant):
+                return isinstance(a.value, (str, int))
+            if isinstance(a, ast.Name):
+                return a.id in self.texts or a.id in self.exact
+            if isinstance(a, ast.Call) and fname(a) == 'str':
+                return True
+            if isinstance(a, (ast.Subscript, ast.BinOp)) and not self.affine_tainted(a):
+                return True         # table text
+            return self.is_exact(a)
         if isinstance(e, ast.BinOp):
             l, r = self.is_exact(e.left), self.is_exact(e.right)
             # Decimal op int stays Decimal; Decimal op float raises TypeError (never silently inexact)
@@ -121,7 +136,15 @@ class FnGrid:
                     isinstance(x, ast.Call) and fname(x) == 'float' for x in ast.walk(arg)):
                 guard = 'exact (Decimal/Fraction) arithmetic'
             haz = False
+            under_pow = set()
             for b in ast.walk(arg):
+                if isinstance(b, ast.BinOp) and isinstance(b.op, ast.Pow):
+                    for x in ast.walk(b):
+                        if x is not b:
+                            under_pow.add(id(x))
+            for b in ast.walk(arg):
+                if id(b) in under_pow:
+                    continue            # a formula result (power law) is not on a decimal grid
                 if isinstance(b, ast.BinOp) and isinstance(b.op, (ast.Mult, ast.Div)):
                     lt, rt = self.affine_tainted(b.left), self.affine_tainted(b.right)
                     if isinstance(b.op, ast.Mult) and (is_pow10(b.left) or is_pow10(b.right)) and (lt or rt):
